@@ -268,7 +268,7 @@ class MTSPContext(EnvContext):
 
     def _cur_node_embedding(self, embeddings, td):
         cur_node_embedding = gather_by_index(embeddings, td["current_node"])
-        return cur_node_embedding.squeeze()
+        return cur_node_embedding
 
     def _state_embedding(self, embeddings, td):
         dynamic_feats = torch.stack(
